@@ -6,6 +6,11 @@ from .buffer import _add_event_ens, obs_ok, _add_event_ghost, events_inv, unlogg
 from .cluster import CV
 from .buffer import hot, cold
 
+
+def admitted(sv):
+    from .scheduler import admitted as a
+    return a(sv)
+
 TW = world_of('telescope')
 RS = lambda m: enum_code('RunStatus', m)
 
@@ -90,7 +95,8 @@ def _trun_inv(c):
     return [('C08-array-use-within-the-telescope-total', s.telescope_use.t <= s.total_arrays.t),
             ('observations-are-objects', Q([('o', I)], lambda o: z3.Implies(s.observations.count(o) > 0, o > 0))),
             ('observation-list-unchanged', z3.And(s.observations.cnt == c.x['pre'].self.observations.cnt)),
-            ('C13-every-unlogged-record-is-still-in-the-list', z3.And(unlogged(n, 'instrument') >= 0, unlogged(n, 'instrument') <= s.events.n))]
+            ('C13-every-unlogged-record-is-still-in-the-list', z3.And(unlogged(n, 'instrument') >= 0, unlogged(n, 'instrument') <= s.events.n)),
+            ('C08-promise-counter-is-the-demand-of-the-admitted-ingests-in-progress', s.scheduler.provision_ingest.t == admitted(n))]
 
 
 def _trun_body(c):
@@ -126,13 +132,28 @@ def _trun_body(c):
                 ('C13-started-event-at-the-start-time', z3.Select(t1.events.cnt, code) == z3.Select(t0.events.cnt, code) + 1),
                 ('C13-actual-start-recorded', z3.And(z3.Select(n.heap('Observation', 'ast'), ob.t) == s0.now,
                                                      z3.Not(z3.Select(n.heap('Observation', 'ast.none', B), ob.t)))),
-                ('spawn-is-for-this-observation', sp[0].args['observation'].t == ob.t)]
+                ('spawn-is-for-this-observation', sp[0].args['observation'].t == ob.t),
+                ('C08-admitted-demand-grows-by-this-pipeline-demand', admitted(n) == admitted(s0) + d)]
     # no start in this iteration: either it finished now, or nothing changed for it
     H0 = lambda f: z3.Select(s0.heap('Observation', f), ob.t)
     fin_now = z3.And(st1 == RS('FINISHED'), st0 != RS('FINISHED'))
     code = EVENT(s0.now, z3.IntVal(STRINGS.intern('instrument')), H0('name'), z3.IntVal(STRINGS.intern('finished')),
                  z3.IntVal(STRINGS.intern('telescope')))
-    return [('C08-status-changes-only-to-finished', z3.Or(st1 == st0, fin_now)),
+    # "an observation that falls due while the system is completely idle starts exactly on time" (no start happened in this iteration)
+    spec = z3.Select(t0.pipelines.vals, H0('name'))
+    d = z3.Select(s0.heap('PipelineSpec', 'ingest_demand'), spec)
+    size = H0('ingest_data_rate') * H0('duration')
+    k = CV(sched0.cluster)
+    buf = sched0.buffer
+    from .buffer import slot
+    idle = z3.And(t0.telescope_use.t == 0, k.av.n == k.M.n, k.ing.n == 0, admitted(s0) == 0,
+                  hot(buf).current_capacity.t == hot(buf).total_capacity.t, cold(buf).current_capacity.t == cold(buf).total_capacity.t,
+                  slot(cold(buf)) == 0)
+    feasible = z3.And(H0('demand') <= t0.total_arrays.t, d <= z3.ToReal(k.M.n), d <= t0.max_ingest.t, H0('duration') >= 1,
+                      size < hot(buf).total_capacity.t, size <= cold(buf).total_capacity.t)
+    return [('C08-due-while-completely-idle-starts-on-time', z3.Not(z3.And(st0 == RS('WAITING'), H0('est') <= s0.now, idle, feasible))),
+            ('C08-no-admission-without-a-start', admitted(n) == admitted(s0)),
+            ('C08-status-changes-only-to-finished', z3.Or(st1 == st0, fin_now)),
             ('C13-finished-exactly-when-one-duration-has-elapsed-since-the-actual-start', z3.Implies(fin_now, z3.And(
                 z3.Not(z3.Select(s0.heap('Observation', 'ast.none', B), ob.t)), s0.now >= H0('ast') + H0('duration'),
                 z3.Select(t1.events.cnt, code) == z3.Select(t0.events.cnt, code) + 1,
@@ -154,12 +175,12 @@ REG.contract('Telescope.run', world=TW, locals_types={},
              yields={0: lambda c: _trun_req(Ctx(c.eng, c.n, c.n)) + [('one-step-wait', c.n['_ydelay'].t == 1)]},
              raises={'RuntimeError': dict(when=None, unchanged=False)},
              modifies=['self.events', 'ghost:unlogged_instrument', 'self.delayed', 'self.telescope_use', 'self.telescope_status', 'self.scheduler.provision_ingest',
-                       'heap:Observation.ast', 'heap:Observation.status'],
+                       'ghost:admitted_ingest', 'heap:Observation.ast', 'heap:Observation.status'],
              props=['C08', 'C13', 'C04', 'C07'])
 REG.loop('Telescope.run', 1, inv=_trun_inv, body=_trun_body,
          modifies_locals=['observation', 'capacity', 'ret', 'process'],
          modifies=['self.events', 'ghost:unlogged_instrument', 'self.telescope_use', 'self.telescope_status', 'self.scheduler.provision_ingest',
-                   'heap:Observation.ast', 'heap:Observation.status'],
+                   'ghost:admitted_ingest', 'heap:Observation.ast', 'heap:Observation.status'],
          props=['C08', 'C13'])
 
 
